@@ -32,6 +32,7 @@ type Engine struct {
 	LoadTime time.Duration
 	validationRuns int
 	fnNames  sync.Map
+	BufSize  int
 	reachMu  sync.Mutex
 	reachSet map[string]bool
 }
@@ -85,9 +86,9 @@ func (g *Engine) pos(p token.Pos) string {
 
 // Load parses and type-checks the repo's current working tree with the harness
 // files injected by overlay, and builds SSA for everything.
-func Load(repo, verifDir string, pkgDirs []string) (*Engine, error) {
+func Load(repo, verifDir string, pkgDirs []string, bufSize int) (*Engine, error) {
 	t0 := time.Now()
-	g := &Engine{repo: repo, verifDir: verifDir, pkgs: map[string]*ssa.Package{}, ppkgs: map[string]*packages.Package{},
+	g := &Engine{BufSize: bufSize, repo: repo, verifDir: verifDir, pkgs: map[string]*ssa.Package{}, ppkgs: map[string]*packages.Package{},
 		known: map[string]bool{}, overlay: map[string][]byte{}, ovFiles: map[string]string{}}
 	for _, pd := range pkgDirs {
 		hdir := filepath.Join(verifDir, "harness", pd)
@@ -104,6 +105,28 @@ func Load(repo, verifDir string, pkgDirs []string) (*Engine, error) {
 			g.overlay[virt] = b
 			g.ovFiles[virt] = filepath.Join(hdir, en.Name())
 		}
+	}
+	// Reduced reader buffer: the overlay copy of the *current* reader.go has
+	// its array length textually replaced (every other size reference in that
+	// file is len(r.buf)). If the expected text is not there the run is
+	// inconclusive rather than silently unreduced.
+	if g.BufSize > 0 {
+		rp := filepath.Join(repo, "stack", "reader.go")
+		b, err := os.ReadFile(rp)
+		if err != nil {
+			return nil, err
+		}
+		const marker = "buf  [16 * 1024]byte"
+		if strings.Count(string(b), marker) != 1 {
+			return nil, fmt.Errorf("reader.go: buffer declaration %q not found exactly once; cannot apply the reduced-buffer bound", marker)
+		}
+		nb := strings.Replace(string(b), marker, fmt.Sprintf("buf  [%d]byte", g.BufSize), 1)
+		g.overlay[rp] = []byte(nb)
+		out := filepath.Join(verifDir, "out", "overlay")
+		os.MkdirAll(out, 0o755)
+		real := filepath.Join(out, fmt.Sprintf("reader_buf%d.go", g.BufSize))
+		os.WriteFile(real, []byte(nb), 0o644)
+		g.ovFiles[rp] = real
 	}
 	cfg := &packages.Config{
 		Mode:       packages.LoadAllSyntax,
